@@ -6,6 +6,7 @@ import (
 	"encoding/json"
 	"fmt"
 	"github.com/samaritan-proxy/samaritan/utils/verifpoint"
+	"net"
 	"strconv"
 	"strings"
 	"sync"
@@ -41,7 +42,8 @@ type mop struct {
 type migCase struct {
 	Masters  int   `json:"masters"`
 	Replicas int   `json:"replicas"`
-	Compress bool  `json:"compress"` // transparent compression enabled (threshold 64): resent writes pass the filter chain again
+	Compress bool  `json:"compress"`                   // transparent compression enabled (threshold 64): resent writes pass the filter chain again
+	ByName   bool  `json:"announce_by_name,omitempty"` // the nodes announce themselves (CLUSTER NODES, MOVED, ASK) as localhost:port instead of 127.0.0.1:port
 	Ops      []mop `json:"ops"`
 }
 
@@ -78,6 +80,15 @@ func checkMig(c migCase) (inf migInfo, v *verdict) {
 	}
 	defer w.Close()
 	w.ListFailed = true
+	if c.ByName {
+		if addrs, err := net.LookupHost("localhost"); err == nil {
+			for _, a := range addrs {
+				if a == "127.0.0.1" {
+					w.AnnounceHost = "localhost"
+				}
+			}
+		}
+	}
 	w.AssignEven(w.Masters())
 	opts := sim.ProxyOpts{Seeds: w.AllAddrs(), ConnectTimeout: 2 * time.Second}
 	if c.Compress {
@@ -362,7 +373,7 @@ func genCmd(t *rapid.T, seq *int) [][]byte {
 }
 
 func genMig(t *rapid.T) migCase {
-	c := migCase{Masters: rapid.IntRange(2, 4).Draw(t, "masters"), Replicas: rapid.IntRange(0, 1).Draw(t, "replicas"), Compress: rapid.IntRange(0, 3).Draw(t, "compress") == 0}
+	c := migCase{Masters: rapid.IntRange(2, 4).Draw(t, "masters"), Replicas: rapid.IntRange(0, 1).Draw(t, "replicas"), Compress: rapid.IntRange(0, 3).Draw(t, "compress") == 0, ByName: rapid.IntRange(0, 2).Draw(t, "byname") == 0}
 	seq := 0
 	n := rapid.IntRange(3, 40).Draw(t, "n")
 	// make sure data exists before migrations start
